@@ -84,9 +84,64 @@ def prefix_constructor(run):
     raw_op = rets[0][1]["ops"][0]
     l = q.root_local(kb, raw_op)
     segs = q.vec_segments(kb, l)
+    if segs and segs[0][0] != "call":
+        segs = same_layout_as_scan_prefix(run, kb, segs) or segs
     if not segs or segs[0][0] != "call":
         raise FactError("idx_topic_key_from_frame does not start from a prefix-constructor call: %s" % [s[0] for s in segs])
     return kb, segs, segs[0][2].fn
+
+
+class _PrefixShim:
+    """Stands for `prefix_constructor(ctx, topic)` when the key function spells the prefix out itself (a helper shared with the
+    prefix constructor was spliced into both): same segments, proven equal below."""
+    def __init__(self, fn, site):
+        self.fn, self.bb, self.sp, self.body = fn, site.bb, site.sp, site.body
+        self.res = self.resx = None
+        self.fnx, self.local, self.args, self.exp, self.ga, self.dest = fn, True, [], None, [], {"l": 0, "p": []}
+
+    def callee(self):
+        return self.fn
+
+    def from_macro(self):
+        return False
+
+
+def seg_tag(seg):
+    k, e = seg[0], seg[1]
+    if k == "bytes":
+        for name in ("context_id", "topic", "id"):
+            if q.has_field(e, name) or any(y[0] == "arg" and str(y[2]) == name for y in walk(e)):
+                return ("bytes", name)
+        return ("bytes", "?")
+    if k == "push":
+        x = strip(e)
+        return ("push", (x[1].get("uneval") or x[1].get("int")) if x[0] == "const" else "?")
+    return (k, "?")
+
+
+def same_layout_as_scan_prefix(run, kb, segs):
+    scans = [c for c in run.facts.calls_to(C.PARTITION_PREFIX) if c.bb in c.body.live_blocks()]
+    fns = set()
+    for c in scans:
+        a = q.peel(c.arg(1))
+        if a[0] == "call" and a[1].local:
+            fns.add(a[1].fn)
+    if len(fns) != 1:
+        return None
+    pfx_fn = fns.pop()
+    pb = run.facts.body(pfx_fn)
+    if pb is None:
+        return None
+    psegs = q.returned_vec_segments(run.facts, pb)
+    n = len(psegs)
+    if n == 0 or len(segs) <= n or [seg_tag(x) for x in psegs] != [seg_tag(x) for x in segs[:n]] or any(t[1] == "?" for t in map(seg_tag, psegs)):
+        return None
+    ctx_e = [x[1] for x in segs[:n] if seg_tag(x) == ("bytes", "context_id")]
+    top_e = [x[1] for x in segs[:n] if seg_tag(x) == ("bytes", "topic")]
+    if len(ctx_e) != 1 or len(top_e) != 1:
+        return None
+    shim = _PrefixShim(pfx_fn, segs[n - 1][2])
+    return [("call", ("call", shim, [ctx_e[0], top_e[0]]), shim)] + list(segs[n:])
 
 
 def r2(run):
@@ -167,7 +222,8 @@ def r3(run):
                 run.ob("%s|reject-dominates-build" % TOPIC_KEY_FN, bool(false_edges) and q.dominated(kb, pcall.bb, via_edges=false_edges), c.sp,
                        "the key is only built on the 'topic has no delimiter' edge", reason="nul-not-rejected")
                 errs = [e for (rb, e, raw) in kb.return_defs() if rb in kb.reachable_blocks([t for (_, t, _) in true_edges])]
-                run.ob("%s|reject-returns-err" % TOPIC_KEY_FN, bool(errs) and all(strip(e)[0] == "agg" and strip(e)[1].get("variant") == "Err" for e in errs), c.sp,
+                run.ob("%s|reject-returns-err" % TOPIC_KEY_FN, bool(errs) and all((strip(e)[0] == "agg" and strip(e)[1].get("variant") == "Err") or
+                                                                                   (strip(e)[0] == "call" and strip(e)[1].fn.endswith("from_residual")) for e in errs), c.sp,
                        "a topic containing the delimiter yields Err", reason="nul-not-rejected")
     if not okc:
         # the same search spelled with an iterator: `topic.bytes().position(|b| b == DELIM)`, `.iter().any(|b| *b == DELIM)`, `.find(..)`
@@ -271,16 +327,50 @@ def r3(run):
     run.ob("%s|ctx-key-reader" % C.ITER_FRAMES, ok, "<iter_frames closure>", "the context scan reads the frame id from key[16..]: %s" % d, reason="key-layout")
 
 
+def delimiter_free_edges(run, b):
+    """Edges of b on which the frame's topic is known to contain no key delimiter: the Ok edge of a call to the topic key
+    constructor (which rejects such topics), or the 'not found' edge of a search for the delimiter constant in the topic bytes
+    (the same test, when a validator shared with the key constructor was spliced in)."""
+    edges = []
+    for c in q.live_calls(b, TOPIC_KEY_FN):
+        edges += q.call_result_edges(b, c, ok=True)
+
+    def is_delim(x):
+        x = strip(x)
+        return x[0] == "const" and (str(x[1].get("uneval", "")).endswith("NULL_DELIMITER") or x[1].get("int") == "0")
+    for c in b.calls():
+        if c.bb not in b.live_blocks():
+            continue
+        found = notfound = None
+        if c.fn == "core::slice::<impl [T]>::contains" and len(c.args) == 2 and is_delim(c.arg(1)) and q.has_field(c.arg(0), "topic"):
+            kind = "bool"
+        elif c.fn.split("::")[-1] in ("position", "any", "find") and "Iterator" in c.fn and len(c.args) == 2 and q.has_field(c.arg(0), "topic"):
+            clo = strip(c.arg(1))
+            cb = run.facts.body(clo[1].get("def")) if clo[0] == "agg" and clo[1].get("def") else None
+            rets = cb.return_defs() if cb is not None else []
+            cm = q.comparison(rets[0][1]) if len(rets) == 1 else None
+            if not cm or cm[0] != "eq" or not any(is_delim(x) for x in (cm[1], cm[2])):
+                continue
+            kind = "any"
+        else:
+            continue
+        for bb, si in b.switches():
+            cnd = strip(si["cond"])
+            if cnd[0] == "call" and q.same_call(cnd[1], c):
+                if si["kind"] == "bool":
+                    edges += q.edge_triples(b, bb, lambda m: m is False)
+                elif si["kind"] == "variant":
+                    edges += q.edge_triples(b, bb, lambda m: m == "None" or (isinstance(m, tuple) and "None" in m))
+    return edges
+
+
 def r4(run):
     for fn in C.publisher_names(run.facts) + (C.INSERT_FRAME,):
         b = C.body_or_fail(run, fn)
-        checks = q.live_calls(b, TOPIC_KEY_FN)
-        if not checks:
-            run.missing("%s|nul-check" % fn, "%s does not call idx_topic_key_from_frame" % fn, b.sp)
+        ok_edges = delimiter_free_edges(run, b)
+        if not ok_edges:
+            run.missing("%s|nul-check" % fn, "%s neither calls idx_topic_key_from_frame nor searches the topic for the delimiter" % fn, b.sp)
             continue
-        ok_edges = []
-        for c in checks:
-            ok_edges += q.call_result_edges(b, c, ok=True)
         effects = []
         for c in q.live_calls(b, C.BATCH_COMMIT, C.INSERT_FRAME, C.BROADCAST_SEND, C.UNBOUNDED_SEND):
             if c.fn == C.BROADCAST_SEND and not C.frame_typed(c):
